@@ -65,6 +65,15 @@ def main():
     rnd.shuffle(pool)
     pool = [c for c in pool if len(c.text) < 160][:12] + genrun.gen_cases(rnd, 40 if quick else 600, units=(1, 4))
     texts = [c.text for c in pool]
+    # legal strings whose growth can run into a dead end (a repeat-unit descriptor of small weight without partner among the repeat units):
+    # generation then raises for SOME seeds; the object must be exactly as before afterwards and later calls must not notice
+    for _ in range(4 if quick else 40):
+        i, w = rnd.choice([2, 5, 11]), rnd.choice(["0.05", "0.2", ".5", "1"])
+        texts.append(rnd.choice([
+            f"C{{[>] [<]CC([>{i}|{w}|])[>]; [<][H], [<{i}]Cl [<]}}|uniform(40, 120)|N",
+            f"{{[] [$]CC([${i}|{w}|])[$]; [$][H], [${i}]O []}}|uniform(30, 100)|",
+            f"OC{{[>] [<]C(C[>{i}|{w}|])C[>], [<]CO[>]; [<]F, [<{i}]N [<]}}|gauss(90, 20)|CC"]))
+    deadend_texts = set(texts[-(4 if quick else 40):])
     nhist = 40 if quick else 1200
     # ---- plan the histories first, so that one fresh interpreter can compute every baseline
     plans = []
@@ -72,6 +81,8 @@ def main():
     for h in range(nhist):
         k = rnd.randint(2, 4)
         strs = [rnd.choice(texts) for _ in range(k)]
+        if rnd.random() < 0.3:
+            strs[0] = rnd.choice(sorted(deadend_texts))
         if rnd.random() < 0.5:
             strs.append(strs[0])                      # a second instance parsed from the same string
         # one system (ensemble) made of two of the strings, in a third of the histories: System.generate(rng=...) is a generation too
@@ -150,6 +161,7 @@ def main():
                         b = base[(strs[i], op[2])]
                         if "error" in b:
                             ck.fail("raises-only-in-baseline", inp, b["error"])
+                            ck.count("op:generate:baseline-raises")
                         elif g.smiles != b["smiles"] or not close(g.weight, b["weight"], 1e-12):
                             ck.fail("output-depends-on-history", inp, f"generate(seed {op[2]}) gives {g.smiles} ({g.weight}); a fresh process gives {b['smiles']} ({b['weight']})")
                         if any(id(bd) in owned[i] for bd in g.bond_descriptors):
@@ -217,10 +229,18 @@ def main():
                         b = base.get((strs[i], op[2])) if name in ("generate", "ff") else None
                         if b is not None and "error" not in b:
                             ck.fail("raises-depending-on-history", inp, f"{type(exc).__name__}: {exc}")
+                        elif b is not None and name == "generate":
+                            ck.count("op:generate:raises-as-in-baseline")
+                            if b["error"].split(":")[0] != type(exc).__name__:
+                                ck.fail("error-depends-on-history", inp, f"generate(seed {op[2]}) raises {type(exc).__name__}: {exc}; a fresh process raises {b['error']}")
                 except Exception as exc:
                     b = base.get((strs[i], op[2])) if name in ("generate", "ff") else None
                     if b is not None and "error" not in b:
                         ck.fail("raises-depending-on-history", inp, f"{type(exc).__name__}: {exc}")
+                    elif b is not None and name == "generate":
+                        ck.count("op:generate:raises-as-in-baseline")
+                        if b["error"].split(":")[0] != type(exc).__name__:
+                            ck.fail("error-depends-on-history", inp, f"generate(seed {op[2]}) raises {type(exc).__name__}: {exc}; a fresh process raises {b['error']}")
                 # frame: nothing reachable from any parsed object changed
                 for k, ob in enumerate(objs):
                     if digest(ob) != dig0[k]:
